@@ -17,7 +17,7 @@ def bfs_slice(run, slice_name, depth, keep=None, timeout=1200, maxnodes=5):
 def simulate(run, slice_name, depth, n, keep=None, lang='LTiny', free=True, timeout=600, ming=3):
     run.gen_replay('Gen_GraphSM', 'Gen_GraphSM.cfg', 'harness.replay_gsm', {'langs': run.libs()},
                    env={'VERIF_LANG': lang, 'VERIF_SLICE': slice_name, 'VERIF_DEPTH': depth, 'VERIF_FREE': 1 if free else 0,
-                        'VERIF_MAXNODES': 12, 'VERIF_MING': ming},
+                        'VERIF_MAXNODES': 12 if free else 6, 'VERIF_MING': ming},
                    simulate=10 ** 9, depth=depth + 1, max_cases=n, timeout=timeout, workers=8,
                    name='GraphSM %s: random behaviours of depth %d on %s (%s model)' % (
                        slice_name, depth, lang, 'built by random ModelSM calls' if free else 'fixed'), keep=keep)
